@@ -100,12 +100,27 @@ Definition dispatch_of (x : op) : Z :=
   | _ => -2
   end.
 
+(* a spill block goes back to the allocator only after the callable living in it has been invoked and destroyed: the harness traces a
+   pool free where it happens relative to the callable's own invoke / destructor events (it samples the cache when they start) *)
+Fixpoint no_free_before_block_use (es : list event) (freed : bool) : bool :=
+  match es with
+  | [] => true
+  | e :: r =>
+      match e with
+      | EPoolFree _ | EFree _ => no_free_before_block_use r true
+      | EDestroy _ LBlock _ | EInvoke _ LBlock _ => negb freed && no_free_before_block_use r freed
+      | _ => no_free_before_block_use r freed
+      end
+  end.
+
 (* ---- the property on the implementation's output, against the protocol (abstract run) *)
 Definition check_once (ops : list op) (av : list avar) (aevss : list (list aevent)) (impl : list (list event)) (fin : list Z) : bool :=
   (* invoked exactly when called, destroyed exactly on call / cleanupNotRun, nothing else touches a stored callable *)
   list_eqb (list_eqb aevent_eqb) (map project impl) (map (filter not_abandon) aevss) &&
   (* every constructor / call / destructor ran at an address satisfying the callable's alignment *)
   forallb (forallb ev_aligned) impl && (nth 13 fin 1 =? 0) &&
+  (* the callable is destroyed (and invoked) while its spill block is still its own *)
+  forallb (fun es => no_free_before_block_use es false) impl &&
   (* the callable's bytes were intact whenever it was copied/moved from, invoked or destroyed (nth 14 = corrupt), and
      no callable was placed in a OnceFunction variable outside its 56-byte buf_ (nth 15 = out of bounds) *)
   (nth 14 fin 1 =? 0) && (nth 15 fin 1 =? 0) &&
